@@ -50,12 +50,14 @@ Definition fat_partition_type (t : N) : Prop := In t [4; 6; 14; 11; 12].  (* 0x0
 
 Definition TWO32 : N := 4294967296.
 
+(* BPB_NumFATs: "the count of FAT data structures on the volume"; one byte, at least 1.  Any count is
+   allowed (the usual value is 2); the layout below is written with the general count *)
 Definition valid_geom (g : geom) : Prop :=
   (* partition table *)
   g_slot g < 4 /\ In (g_status g) [0; 128] /\ fat_partition_type (g_ptype g) /\
   1 <= g_lba g /\ g_total g <= g_part_blocks g /\ g_lba g + g_part_blocks g <= TWO32 /\
   (* BPB *)
-  pow2_upto_128 (g_spc g) /\ 1 <= g_reserved g < 65536 /\ In (g_nfats g) [1; 2] /\
+  pow2_upto_128 (g_spc g) /\ 1 <= g_reserved g < 65536 /\ 1 <= g_nfats g < 256 /\
   1 <= g_fat_size g < TWO32 /\ g_root_entries g < 65536 /\
   spec_first_data g <= g_total g /\ g_total g < TWO32 /\
   (g_use16 g = true -> g_total g < 65536) /\
@@ -80,7 +82,7 @@ Definition valid_geomb (g : geom) : bool :=
   (g_slot g <? 4) && mem (g_status g) [0; 128] && mem (g_ptype g) [4; 6; 14; 11; 12] &&
   (1 <=? g_lba g) && (g_total g <=? g_part_blocks g) && (g_lba g + g_part_blocks g <=? TWO32) &&
   mem (g_spc g) [1; 2; 4; 8; 16; 32; 64; 128] && (1 <=? g_reserved g) && (g_reserved g <? 65536) &&
-  mem (g_nfats g) [1; 2] && (1 <=? g_fat_size g) && (g_fat_size g <? TWO32) &&
+  (1 <=? g_nfats g) && (g_nfats g <? 256) && (1 <=? g_fat_size g) && (g_fat_size g <? TWO32) &&
   (g_root_entries g <? 65536) && (spec_first_data g <=? g_total g) && (g_total g <? TWO32) &&
   (if g_use16 g then g_total g <? 65536 else true) &&
   (g_media g <? 256) && (g_hidden g <? TWO32) && (g_backup_boot g <? 65536) &&
